@@ -177,6 +177,38 @@ def check(run, prog, tier):
                 run.ob("C09-e", inst, False, "%s runs LPC code in a loop whose recovery point is armed outside the loop (cycle %s avoids setjmp): after an error the loop is re-entered from the setjmp with its per-task bookkeeping half done" % (fn, p),
                        f.file, n.get("l"), f.name, what="%s: one recovery point for many tasks; an error in one task disturbs the others" % f.name)
 
+    # the reasons in RESTART_OK for look_for_objects_to_swap are checked, not believed: the walk is restarted from the list
+    # head after an error, so what made the failing object due must be changed *before* its LPC code runs
+    ro = prog.func("reset_object")
+    al = prog.func("apply_low")
+    lf = prog.func("look_for_objects_to_swap")
+    if ro is not None and al is not None and lf is not None:
+        def progress_first(g, field, calls, what):
+            stores = {b.id for b, i, n in g.nodes() if n.get("k") == "Asg" and strip(n["L"]).get("k") == "Mem" and strip(n["L"]).get("f") == field}
+            cfg_skip = set()
+            for bid in g.reachable():
+                c = g.branch_cond(bid)
+                if c is not None and (facts.any_in_macro(c, "CONFIG_INT") or "config_int" in show(c)):
+                    e0, t0 = normalize_cond(c, True)
+                    cfg_skip.add((bid, g.blocks[bid].succ[1] if t0 else g.blocks[bid].succ[0]))   # the 'feature off' edge
+            tgt = {b.id for b, i, n in g.calls() if n.get("fn") in calls}
+            run.need(tgt, "%s call in %s" % ("/".join(calls), g.name))
+            p = g.reach_avoiding([g.entry], lambda blk: blk.id in tgt, avoid_blocks=stores - tgt, avoid_edges=cfg_skip)
+            # same block: the store must come first
+            if p is None:
+                for b, i, n in g.calls():
+                    if n.get("fn") in calls and b.id in stores:
+                        si = [i2 for b2, i2, n2 in g.nodes() if b2.id == b.id and n2.get("k") == "Asg" and strip(n2["L"]).get("f") == field]
+                        if si and min(si) > i:
+                            p = [b.id]
+            run.ob("C09-e", "progress:%s:%s" % (g.name, field), p is None and bool(stores), "%s stores ->%s before %s" % (g.name, field, what) if p is None and stores else
+                   "%s reaches %s (path %s) before ->%s is changed: when that code raises an error, look_for_objects_to_swap() restarts its walk, finds the same object due again and calls it again - for ever" % (g.name, what, (p or [])[:8], field),
+                   g.file, g.line, g.name, what="%s runs LPC code before it has changed ->%s: a failing object is retried endlessly by the restarted walk" % (g.name, field))
+        run.saw(ro)
+        run.saw(al)
+        progress_first(ro, "next_reset", ("apply",), "reset() is applied")
+        progress_first(al, "time_of_ref", ("call_program", "eval_instruction"), "the function is run")
+
     # ---- C09-d
     from rules import C11
     C11.fault_locality(run, prog, "C09-d")
